@@ -2,6 +2,7 @@
    Generated once by tools/mkpins.py from Props/C06b_v6opts.v and then committed: edit both or neither. *)
 From SV Require Import Lib.Base Gen.Consts Gen.WireFields Model.WireBase Proofs.WireBaseProofs.
 From SV Require Import Model.WireIpv6Opt Proofs.WireIpv6OptProofs.
+From SV Require Import Model.WireIpv6Hbh Proofs.WireIpv6HbhProofs.
 From SV Require Import Props.C06b_v6opts.
 
 Check (C06_v6opt_emit_no_panic : forall r b,
@@ -24,3 +25,29 @@ Check (C06_v6opt_reparse : forall bs r,
 
 Check (C06_v6opt_iter_bytes : forall opts,
   forallb v6opt_wf opts = true -> v6opt_iter (v6opt_bytes_list opts) = map Ok opts).
+
+Check (C06_v6hbh_emit_no_panic : forall r b,
+  v6hbh_wf r = true -> blen b = v6hbh_buffer_len r -> v6hbh_emit r b <> Panic).
+
+Check (C06_v6hbh_emit_ignores_old_bytes : forall r b1 b2,
+  v6hbh_wf r = true -> blen b1 = v6hbh_buffer_len r -> blen b2 = v6hbh_buffer_len r ->
+  v6hbh_emit r b1 = v6hbh_emit r b2).
+
+Check (C06_v6hbh_roundtrip : forall r b,
+  v6hbh_wf r = true -> blen b = v6hbh_buffer_len r ->
+  exists bs, v6hbh_emit r b = Ok bs /\ blen bs = v6hbh_buffer_len r /\ v6hbh_parse bs = Ok r).
+
+Check (C06_v6hbh_reparse : forall bs r,
+  bytes_ok bs = true -> v6hbh_parse bs = Ok r ->
+  v6hbh_wf r = true /\
+  forall b, blen b = v6hbh_buffer_len r ->
+    exists bs', v6hbh_emit r b = Ok bs' /\ v6hbh_parse bs' = Ok r).
+
+Check (C06_v6hbh_mldv2_router_alert_ok :
+  v6hbh_mldv2_router_alert = Ok (mkV6Hbh [V6OptRouterAlert 0]) /\ v6hbh_wf (mkV6Hbh [V6OptRouterAlert 0]) = true).
+
+Check (C06_v6hbh_push_padn_option_ok : forall r n,
+  v6hbh_wf r = true -> is_u8 n = true ->
+  Z.of_nat (length (v6hbh_opts r)) < cfg_IPV6_HBH_MAX_OPTIONS ->
+  exists r', v6hbh_push_padn_option r n = Ok r' /\ v6hbh_wf r' = true /\
+             v6hbh_buffer_len r' = v6hbh_buffer_len r + (n + 2)).
